@@ -12,7 +12,7 @@ import numpy as np
 class PassRecorder:
     """Wraps ir_optimizations._run_top_level_optimizer_pass / optimize_graph from outside."""
 
-    def __init__(self, max_nodes_per_pass: int = 1500, abort_at: int | None = None, abort_exc: type | None = None) -> None:
+    def __init__(self, max_nodes_per_pass: int = 1500, abort_at: int | None = None, abort_exc: type | None = None, abort_fn_at: int | None = None, abort_mutation_at: int | None = None) -> None:
         self.snaps: list[tuple[int, str, bytes]] = []  # (pass idx, name, proto bytes)
         self.before: bytes | None = None
         self.after: bytes | None = None
@@ -21,6 +21,10 @@ class PassRecorder:
         self.abort_exc = abort_exc or RuntimeError
         self.passes_run: list[str] = []
         self.raised_in_optimizer = False
+        self.abort_fn_at = abort_fn_at
+        self.abort_mutation_at = abort_mutation_at
+        self.mutations = 0
+        self.fn_passes = 0
 
     def __enter__(self):
         import onnx_ir as ir
@@ -68,12 +72,48 @@ class PassRecorder:
                 except Exception:  # noqa: BLE001
                     rec.after = None
 
+        self._orig_fn_pass = io._run_function_optimizer_pass
+
+        def run_fn_pass(opt_pass, graph):
+            rec.fn_passes += 1
+            if rec.abort_fn_at is not None and rec.fn_passes == rec.abort_fn_at:
+                rec.raised_in_optimizer = True
+                raise rec.abort_exc(f"injected abort in function-body optimizer pass #{rec.fn_passes} ({opt_pass.name})")
+            return rec._orig_fn_pass(opt_pass, graph)
+
+        io._run_function_optimizer_pass = run_fn_pass
+        # abort INSIDE a pass: at the n-th graph mutation through replace_all_uses_with
+        self._orig_rauw = ir.convenience.replace_all_uses_with
+        self._in_opt = False
+
+        def rauw(*a, **k):
+            if rec._in_opt:
+                rec.mutations += 1
+                if rec.abort_mutation_at is not None and rec.mutations == rec.abort_mutation_at:
+                    rec.raised_in_optimizer = True
+                    raise rec.abort_exc(f"injected abort at graph mutation #{rec.mutations}")
+            return rec._orig_rauw(*a, **k)
+
+        ir.convenience.replace_all_uses_with = rauw
+        orig_optimize = optimize
+
+        def optimize2(model):
+            rec._in_opt = True
+            try:
+                return orig_optimize(model)
+            finally:
+                rec._in_opt = False
+
         io._run_top_level_optimizer_pass = run_pass
-        capi.optimize_graph = optimize
+        capi.optimize_graph = optimize2
         return self
 
     def __exit__(self, *a):
+        import onnx_ir as ir
+
         self._io._run_top_level_optimizer_pass = self._orig_pass
+        self._io._run_function_optimizer_pass = self._orig_fn_pass
+        ir.convenience.replace_all_uses_with = self._orig_rauw
         self._capi.optimize_graph = self._orig_opt_capi
         return False
 
